@@ -169,6 +169,9 @@ def configs(fp, cls):
                 kw["additional_starts"] = ["a"]
                 kw["additional_ends"] = ["b"]
         mk("node", node, node=True)
+        # an input the class rejects (a node that is not a string): the caller's objects must be as before after the ValueError
+        mk("rejected_node_name", lambda kw: (opts(kw), kw.__setitem__("G", nx.relabel_nodes(kw["G"], {"a": 1}))), node=True)
+        mk("rejected_node_name_edge_mode", lambda kw: (opts(kw), kw.__setitem__("G", nx.relabel_nodes(kw["G"], {"a": 1}))))
         mk("defaults", lambda kw: None)
         mk("defaults_node", lambda kw: None, node=True)
     elif cls == "MinGenSet":
@@ -717,7 +720,7 @@ def process_state_case(ctx, rng, suite="C18.process_state", node_variant=None):
     """every step gets fresh argument objects, so only state kept in the process (module-level caches, class attributes, solver
     globals) can connect the steps: the last step run alone in a fresh interpreter must give what it gives after the others"""
     import subprocess, sys, json as _json
-    fam = rng.choice(["dag", "dag", "cyc"])
+    fam = rng.choice(["dag", "dag", "cyc"]) if node_variant in (None, True) else "dag"
     classes = [c for c in (K.CYC if fam == "cyc" else K.DAG)]
     steps = []
     for _ in range(rng.randint(2, 3)):
@@ -748,6 +751,12 @@ def process_state_case(ctx, rng, suite="C18.process_state", node_variant=None):
         else:
             first["drop_node_flow"] = v
         steps = [first, {"cls": rng.choice(ncls), "opts": {}, "dk": 0, "node": True}]
+        if node_variant == "flow" and fam == "dag":      # directed: the pairs that share the node expansion most directly
+            steps = [{"cls": "MinFlowDecomp", "opts": {}, "dk": 0, "node": True, "drop_node_flow": v},
+                     {"cls": "MinFlowDecomp", "opts": {}, "dk": 0, "node": True}]
+        elif node_variant == "ignore" and fam == "dag":
+            steps = [{"cls": "kLeastAbsErrors", "opts": {}, "dk": 0, "node": True, "ignore": [v]},
+                     {"cls": "kLeastAbsErrors", "opts": {}, "dk": 0, "node": True}]
     after, alone = run(steps), run(steps[-1:])
     inp = {"family": "process", "history": steps}
     ctx.rep.count(suite, inp, nontrivial=True, hist=[fam, f"len={len(steps)}"])
@@ -797,7 +806,7 @@ def run(ctx):
         history_case(ctx, fam, random_history(rng, fam))
     threads_history_case(ctx)
     for it in range(ctx.n(6, 40)):
-        process_state_case(ctx, rng, node_variant=(True if it < 2 else None))
+        process_state_case(ctx, rng, node_variant=("flow" if it == 0 else "ignore" if it == 1 else None))
     ctx.rep.sample({"suite": "C18.mutation", "cls": "kLeastAbsErrors", "config": "plain",
                     "arguments": {"optimization_options": dict(NONEMPTY_OPTS), "solver_options": dict(SOLVER_OPTS)}})
     ctx.rep.sample({"suite": "C18.history", "history": [{"cls": "kLeastAbsErrors", "features": ["options", "given_weights"], "dk": 0},
